@@ -3,6 +3,10 @@
 package corrupt
 
 import (
+	"math/big"
+
+	"github.com/markkurossi/mpc/circuit"
+
 	"verifsim/sim/rt"
 	"verifsim/worlds/core"
 	"verifsim/worlds/stream"
@@ -11,6 +15,16 @@ import (
 
 func init() {
 	core.Register("C16", func(tier string) core.World { return &world{tier: tier} })
+	core.Register("C02", func(tier string) core.World {
+		return &twopc.C02{Tier: tier, Compiled: func(t *rt.Tape) (*circuit.Circuit, []*big.Int, string) {
+			prog, probe := stream.DrawProgram(t)
+			c := stream.Prepare(t, prog, probe)
+			if c.Discard != "" {
+				return nil, nil, ""
+			}
+			return c.Circ, []*big.Int{c.X, c.Y}, prog.Name
+		}}
+	})
 }
 
 type world struct{ tier string }
